@@ -65,7 +65,8 @@ fn query_text(q: &J) -> String {
     let sel: Vec<String> = q["sel"].as_array().unwrap().iter().map(|v| format!("?{}", v.as_str().unwrap())).collect();
     let order = q.get("order").map(|o| if o["desc"].as_bool().unwrap() { format!(" ORDER BY DESC(?{})", o["v"].as_str().unwrap()) } else { format!(" ORDER BY ?{}", o["v"].as_str().unwrap()) }).unwrap_or_default();
     if let Some(gv) = q.get("group").and_then(|x| x.as_str()) {
-        return format!("SELECT ?{gv} (COUNT(*) AS ?c) WHERE {} GROUP BY ?{gv}", group_text(&q["where"]));
+        let having = q.get("having").map(|h| format!(" HAVING (COUNT(*) {} {})", match h["f"].as_str().unwrap() { "gt" => ">", "eq" => "=", _ => ">=" }, h["n"])).unwrap_or_default();
+        return format!("SELECT ?{gv} (COUNT(*) AS ?c) WHERE {} GROUP BY ?{gv}{having}", group_text(&q["where"]));
     }
     let head = if q["count"].as_bool().unwrap() { "SELECT (COUNT(*) AS ?c)".to_string() } else { format!("SELECT {}{}", if q["distinct"].as_bool().unwrap() { "DISTINCT " } else { "" }, sel.join(" ")) };
     let lim = q["limit"].as_i64().unwrap();
@@ -188,6 +189,7 @@ fn gen_query(rng: &mut StdRng, ns: i64) -> J {
         if !top.is_empty() {
             let gv = top[g.rng.random_range(0..top.len())].clone();
             q = json!({"sel": [gv, "c"], "distinct": false, "count": false, "limit": -1, "where": q["where"], "group": gv});
+            if g.rng.random_bool(0.5) { let hf = ["gt", "eq", "ge"][g.rng.random_range(0..3)]; let hn = g.rng.random_range(1..=3); q["having"] = json!({"f": hf, "n": hn}); }
             return q;
         }
     }
